@@ -428,3 +428,24 @@ func TestC16_Bulk(t *testing.T) {
 		}
 	}, execC16Bulk)
 }
+
+// C10 at the correlator API: over the C02 history family (logins at every
+// position, events held after the disposal record, cleanup calls) no audit
+// event is written twice. Only "written twice" is judged here.
+func execC10History(h history) Outcome {
+	ct := runHistoryAPI(h, nil)
+	seen := map[string]int{}
+	for i, st := range ct.Steps {
+		for _, a := range st.Actual {
+			k := fmt.Sprintf("%s|%d", a.Ses, a.Ev)
+			seen[k]++
+			if seen[k] > 1 {
+				return fail("step %d (%s): audit event op %d of session %s was written %d times; history: %s", i, h.Ops[i], a.Ev, a.Ses, seen[k], h)
+			}
+		}
+	}
+	f := factsOf(ct)
+	return Outcome{NT: f.loginInside || f.lateLoginFlushEnd, Labels: labelsOf(f)}
+}
+
+func TestC10_History(t *testing.T) { RunProp(t, "c10.history", genHistC02, execC10History) }
